@@ -50,8 +50,25 @@ pub fn parse_uint(i: &[u8]) -> nom::IResult<&[u8], u64> {
     Ok((i, i.iter().fold(0, |res, &byte| (res << 8) | byte as u64)))
 }
 
+/// Maximum nesting depth of constructed elements accepted by `parse_tag()`.
+///
+/// The parser (like cloning and dropping the parsed structure) recurses once per
+/// nesting level, so the depth must be bounded for untrusted input. LDAP protocol
+/// elements are nowhere near this deep.
+pub const MAX_NESTING_DEPTH: usize = 100;
+
 /// Parse raw BER data into a serializable structure.
 pub fn parse_tag(i: &[u8]) -> nom::IResult<&[u8], StructureTag> {
+    parse_tag_at_depth(i, 0)
+}
+
+fn parse_tag_at_depth(i: &[u8], depth: usize) -> nom::IResult<&[u8], StructureTag> {
+    if depth > MAX_NESTING_DEPTH {
+        return Err(nom::Err::Failure(Error::from_error_kind(
+            i,
+            ErrorKind::TooLarge,
+        )));
+    }
     let (mut i, ((class, structure, id), len)) = tuple((parse_type_header, parse_length))(i)?;
 
     let pl: PL = match structure {
@@ -69,7 +86,7 @@ pub fn parse_tag(i: &[u8]) -> nom::IResult<&[u8], StructureTag> {
             while content.input_len() > 0 {
                 // The content of this element is complete; an element inside it which claims
                 // more bytes than are left is malformed, not a reason to wait for more input.
-                let (j, sub) = parse_tag(content).map_err(|e| match e {
+                let (j, sub) = parse_tag_at_depth(content, depth + 1).map_err(|e| match e {
                     nom::Err::Incomplete(_) => {
                         nom::Err::Error(Error::from_error_kind(content, ErrorKind::Eof))
                     }
